@@ -133,9 +133,23 @@ def replay(case) -> dict:
         if np.max(np.abs(np.asarray(other.pos[0]) - np.array([14, 16, 15]) * scale)) > 0.15 * scale:
             fails.append(dict(desc, clause="UnperturbedMoleculeMoved"))
     elif kind == "group":
-        loader = SubtomogramLoader(tomo, mole, order=cfg["order"], scale=scale, output_shape=(BOX,) * 3)
-        got = {k: l.molecules for k, l in engine.api(loader.groupby("g").align, tmpls[0], **kw)}
-        out = got[0]
+        if form % 2 == 0:
+            loader = SubtomogramLoader(tomo, mole, order=cfg["order"], scale=scale, output_shape=(BOX,) * 3)
+            got = {k: l.molecules for k, l in engine.api(loader.groupby("g").align, tmpls[0], **kw)}
+            out = got[0]
+        else:
+            # two groups, each aligned against ITS OWN template (a Mapping key -> template): group 1 holds an unperturbed copy
+            # of the second template, which must stay where it is
+            tomo_np = np.asarray(tomo)
+            tomo2 = np.concatenate([tomo_np, np.zeros_like(tomo_np)], axis=2)
+            centre2 = np.array([15, 15, TSHAPE[2] + 15])
+            plant(tomo2, tmpls[1], centre2, dict(d=1, m=[[1, 0, 0], [0, 1, 0], [0, 0, 1]]))
+            both = Molecules(np.stack([p_in, centre2 * scale]), Rotation.concatenate([R_in, Rotation.identity()]), features=pl.DataFrame({"g": [0, 1]}))
+            loader = SubtomogramLoader(tomo2, both, order=cfg["order"], scale=scale, output_shape=(BOX,) * 3)
+            got = {k: l.molecules for k, l in engine.api(loader.groupby("g").align, {0: tmpls[0], 1: tmpls[1]}, **kw)}
+            out = got[0]
+            if np.max(np.abs(np.asarray(got[1].pos[0]) - centre2 * scale)) > 0.15 * scale:
+                fails.append(dict(desc, clause="OtherGroupAlignedWithItsOwnTemplate", err_px=float(np.max(np.abs(np.asarray(got[1].pos[0]) - centre2 * scale)) / scale)))
     else:  # template-free: four unperturbed copies define the average, the fifth molecule is the perturbed one
         big = np.zeros((30, 30, 90), np.float32)
         cents = [np.array([15, 15, 12 + 16 * i]) for i in range(4)]
